@@ -293,6 +293,35 @@ func (g *progGen) body(levels []*level, i int, sh shape, raise func(g *progGen))
 		}
 		return
 	}
+	if g.r.Chance(7) {
+		// the next activation is a function made by the Function constructor: its code lives in a file of its own,
+		// the wrapper text "(function(<params>) {\n<body>\n})" that the constructor parses
+		fv := g.fresh("F")
+		params := [][]string{nil, {"a"}, {"a", "b"}}[g.r.Intn(3)]
+		g.w("var " + fv + " = ")
+		if g.r.Bool() {
+			g.w("new ")
+		}
+		made := fmt.Sprintf("c:id:%d", g.idx())
+		g.w("Function(")
+		for _, p := range params {
+			g.w("\"" + p + "\", ")
+		}
+		k := g.pushFile()
+		g.w("(function(" + strings.Join(params, ",") + ") {\n")
+		start := g.top().Len()
+		inner()
+		bodyText := g.top().String()[start:]
+		g.w("\n})")
+		g.popFile()
+		g.w(jsStr(bodyText) + ");")
+		preStmts()
+		lv.pre = append([]string{made}, lv.pre...)
+		*lv = level{"d", "id", "", g.idx(), lv.pre, "", k, "id"}
+		g.w(fv)
+		g.callTail(lv, !sh.recordedOnly)
+		return
+	}
 	if g.r.Chance(14) {
 		// method call whose callee chain begins with something other than a plain identifier: the call site is the
 		// first token of that head (`new`, `[`, `"`, `{`, the first operand of a parenthesised sequence, `this`, …)
@@ -1231,6 +1260,9 @@ func genAll(c *h.Ctx) {
 		}
 		if strings.Contains(line, ":t,") || strings.Contains(line, ":t+") || strings.Contains(line, ":t ") {
 			keys = append(keys, "trace:after-caught-throwing-direct-eval")
+		}
+		if strings.Contains(line, "/"+hx("(function(")) {
+			keys = append(keys, "trace:through-Function-made-function")
 		}
 		if strings.Contains(line, "ei,id,-,") {
 			keys = append(keys, "trace:through-indirect-eval")
